@@ -3995,15 +3995,21 @@ func (ce *callEngine) callNativeFunc(ctx context.Context, m *wasm.ModuleInstance
 			timeout := int64(ce.popValue())
 			exp := ce.popValue()
 			offset := ce.popMemoryOffset(op)
+			switch unsignedType(op.B1) {
+			case unsignedTypeI32:
+				checkAtomicAccess(memoryInst, offset, 4)
+			case unsignedTypeI64:
+				checkAtomicAccess(memoryInst, offset, 8)
+			}
 			// Runtime instead of validation error because the spec intends to allow binaries to include
-			// such instructions as long as they are not executed.
+			// such instructions as long as they are not executed. Checked after the bounds and the alignment,
+			// like the compiler does.
 			if !memoryInst.Shared {
 				panic(wasmruntime.ErrRuntimeExpectedSharedMemory)
 			}
 
 			switch unsignedType(op.B1) {
 			case unsignedTypeI32:
-				checkAtomicAccess(memoryInst, offset, 4)
 				if int(offset) > len(memoryInst.Buffer)-4 {
 					panic(wasmruntime.ErrRuntimeOutOfBoundsMemoryAccess)
 				}
@@ -4014,7 +4020,6 @@ func (ce *callEngine) callNativeFunc(ctx context.Context, m *wasm.ModuleInstance
 					return value
 				}))
 			case unsignedTypeI64:
-				checkAtomicAccess(memoryInst, offset, 8)
 				if int(offset) > len(memoryInst.Buffer)-8 {
 					panic(wasmruntime.ErrRuntimeOutOfBoundsMemoryAccess)
 				}
